@@ -29,8 +29,11 @@ SHIM_DIR = os.path.join(VERIF, "shim")
 
 GUARD = "RELIC_VERIF"
 
+# -ftrivial-auto-var-init=pattern: automatic variables (and VLAs) start as 0xFE.. instead of whatever the stack
+# held, so a result computed from a never-written local disagrees with the reference model (C08 "never-written
+# storage"; the ASan allocator already fills fresh heap blocks with 0xBE)
 SAN_GATE = ("-O1 -g -fno-omit-frame-pointer -fsanitize=address,undefined "
-            "-fno-sanitize-recover=undefined -D%s" % GUARD)
+            "-fno-sanitize-recover=undefined -ftrivial-auto-var-init=pattern -D%s" % GUARD)
 SAN_RECOVER = ("-O1 -g -fno-omit-frame-pointer -fsanitize=address,undefined "
                "-fsanitize-recover=address,undefined -D%s" % GUARD)
 if COV:
